@@ -349,11 +349,11 @@ _RELT.update({"A04": ["C03", "C04", "C05", "C07", "C08", "C15"], "A06": ["C03", 
               "A10": ["C01", "C02", "C10", "C18"], "A11": ["C01", "C03", "C11", "C18", "C20"], "A13": ["C01", "C02", "C13", "C18"], "A15": ["C03", "C04", "C07", "C08", "C15", "C16"]})
 # ninth corpus (B<prop>.p<i>, written after seed round 17)
 _RELT.update({"B18": ["C01", "C02", "C03", "C04", "C05", "C08", "C09", "C10", "C13", "C18", "C19", "C20"], "B20": ["C01", "C15", "C16", "C18", "C20"],
-              "B05": ["C03", "C04", "C05", "C06", "C07", "C17"], "B19": ["C01", "C02", "C18", "C19"]})
+              "B05": ["C03", "C04", "C05", "C06", "C07", "C17"], "B19": ["C01", "C02", "C18", "C19"], "B12": ["C01", "C02", "C03", "C06", "C09", "C10", "C12", "C18"]})
 # B05.p3 (the by-value iterator's two cursors merged into one `alive: Range<usize>` field: the owner discovery and the deque rules are stated on two
 # cursor fields) and B19.p3 (the odd storage node's DEFAULT built from its even sibling through a const fn that moves the halves with ptr::read:
 # C19.D is stated on struct aggregates of per-field DEFAULTs) are reported although behaviour-preserving - DESIGN 8.5
-_SKIPT = {("V14", 3), ("V18", 3), ("X14", 3), ("B05", 3), ("B19", 3)}
+_SKIPT = {("V14", 3), ("V18", 3), ("X14", 3), ("B05", 3), ("B19", 3), ("B12", 3)}   # B12.p3: the same Range<usize> cursor merge as B05.p3, by another author
 for _g, _props in _RELT.items():
     for _i in (1, 2, 3):
         if (_g, _i) in _SKIPT:
@@ -594,3 +594,15 @@ benign("c13-hash-slice-override-loop", ["C13"], _hs("for piece in data { Hash::h
 benign("c13-hash-slice-override-for-each", ["C13"], _hs("data.iter().for_each(|piece| piece.hash(state));"))
 mutant("c13-hash-slice-override-skips-the-first", ["C13"], _hs("for piece in data.iter().skip(1) { Hash::hash(piece, state); }"), "C13.D")
 mutant("c13-hash-slice-override-hashes-the-elements", ["C13"], _hs("for piece in data { for x in piece.iter() { Hash::hash(x, state); } }"), "C13.D")
+
+# ---- tuple conversions through the From / Into impls for native arrays instead of the const fns (own probe, round 19)
+benign("c02-tuple-from-via-from-impl", ["C02", "C12"], [("src/impls.rs", "GenericArray::from_array([$($t,)*])", "GenericArray::from([$($t,)*])")])
+benign("c02-tuple-into-via-into-impl", ["C02", "C12"], [("src/impls.rs", "let [$($t),*] = array.into_array();", "let [$($t),*] = array.into();")])
+
+# ---- early returns in generate (round 19 / S214): only a path on which N == 0 is known may skip the traversal
+_BG_OLD = "                Box::<GenericArray<MaybeUninit<T>, N>>::new_uninit().assume_init();\n"
+benign("c08-boxed-generate-early-return-for-zero-length", ["C08", "C15", "C16", "C03", "C04"], [("src/impl_alloc.rs", _BG_OLD, _BG_OLD + "\n            if N::USIZE == 0 {\n                return Box::from_raw(Box::into_raw(array).cast());\n            }\n")])
+mutant("c08-boxed-generate-early-return-for-zero-size", ["C08"], [("src/impl_alloc.rs", _BG_OLD, _BG_OLD + "\n            if core::mem::size_of::<GenericArray<T, N>>() == 0 {\n                return Box::from_raw(Box::into_raw(array).cast());\n            }\n")], "C08.G")
+
+# a NEW windowed view API (seed S211's array_windows with the window count put right: (N + 1).saturating_sub(K)): C01.V must prove it in bounds
+benign_patch("own.array-windows-correct", ["C01", "C02", "C12", "C18"])
